@@ -189,19 +189,33 @@ var errNoReadKey = errors.New("author holds no current read key")
 // local builder API, not an ACL record, so the harness refuses on the builder's behalf
 var needsReadKey = map[string]bool{"AccountsAdd": true, "RequestAccept": true, "ReadKeyChange": true, "AccountRemove": true, "Invite": true}
 
-func (w *world) holdsReadKey(author string) bool {
-	k, err := w.builders[author].AclState().CurrentReadKey()
+func holdsReadKey(l list.AclList) bool {
+	k, err := l.AclState().CurrentReadKey()
 	return err == nil && k != nil
+}
+
+// listAt: the author's own validating list at the prefix log[1..at] (the standing builder list
+// when that is the whole log)
+func (w *world) listAt(author string, at int) list.AclList {
+	if at == len(w.log) {
+		return w.builders[author]
+	}
+	return w.freshList(author, "validating", w.log[:at])
 }
 
 // buildRaw asks the author's own list (the client record builder, including its preflight
 // validation) for the record with the given abstract contents at the current log head.
 // It returns the unsigned-by-acceptor raw record and the invite keys created (by content position).
 func (w *world) buildRaw(author string, cs []content) (*consensusproto.RawRecord, []crypto.PrivKey, error) {
-	b := w.builders[author].RecordBuilder()
-	st := w.builders[author].AclState()
+	return w.buildRawWith(w.builders[author], author, cs)
+}
+
+// buildRawWith: the same with the author's list given explicitly (a list at an earlier prefix)
+func (w *world) buildRawWith(l list.AclList, author string, cs []content) (*consensusproto.RawRecord, []crypto.PrivKey, error) {
+	b := l.RecordBuilder()
+	st := l.AclState()
 	for _, c := range cs {
-		if needsReadKey[c.K] && !w.holdsReadKey(author) {
+		if needsReadKey[c.K] && !holdsReadKey(l) {
 			return nil, nil, errNoReadKey
 		}
 	}
@@ -396,14 +410,14 @@ func (w *world) rawFromContents(author, prevId string, contents []*aclrecordprot
 	return signedBy(&consensusproto.Record{PrevId: prevId, Identity: ident, Data: data, Timestamp: 1700000000}, w.keys[author].SignKey)
 }
 
-// badRecord renders the model's refused records: <<valid first content, dangling second content>>
-// or <<invite by an account that may not manage>>. prevId must be the log head.
-func (w *world) badRecord(author string, cs []content) (*consensusproto.RawRecord, error) {
+// badRecord renders the model's refused records for the prefix log[1..at]: <<valid first content,
+// dangling second content>> or <<invite by an account that may not manage>>; it extends record at.
+func (w *world) badRecord(author string, cs []content, at int) (*consensusproto.RawRecord, error) {
 	var contents []*aclrecordproto.AclContentValue
 	for i, c := range cs {
 		switch {
 		case i == 0 && len(cs) == 2:
-			raw, _, err := w.buildRaw(author, []content{c})
+			raw, _, err := w.buildRawWith(w.listAt(author, at), author, []content{c})
 			if err != nil {
 				return nil, err
 			}
@@ -427,5 +441,14 @@ func (w *world) badRecord(author string, cs []content) (*consensusproto.RawRecor
 			return nil, errNotBuildable
 		}
 	}
-	return w.rawFromContents(author, w.head(), contents), nil
+	return w.rawFromContents(author, w.log[at-1].Id, contents), nil
+}
+
+// refusedAt: a fully validating list at the prefix refuses the record (what the acceptor would do there)
+func (w *world) refusedAt(raw *consensusproto.RawRecord, at int) bool {
+	v := w.acceptor
+	if at != len(w.log) {
+		v = w.freshList("n", "validating", w.log[:at])
+	}
+	return v.ValidateRawRecord(raw, nil) != nil
 }
